@@ -2266,6 +2266,16 @@ impl<'a, 'b, W: Write> SerializeMap for MapSer<'a, 'b, W> {
                     } else {
                         self.ser.write_indent(self.depth)?;
                     }
+                    if text.chars().count() > 1024 {
+                        // YAML limits an implicit key to 1024 characters: a longer one is
+                        // written in the explicit form, `? key` with `: value` on its own line.
+                        self.ser.out.write_str("? ")?;
+                        self.ser.out.write_str(&text)?;
+                        self.ser.at_line_start = false;
+                        self.ser.newline()?;
+                        self.last_key_complex = true;
+                        return Ok(());
+                    }
                     self.ser.out.write_str(&text)?;
                     // Defer the decision to put a space vs. newline until we see the value type.
                     self.ser.out.write_str(":")?;
